@@ -99,7 +99,11 @@ pub fn make_coding(rng: &mut Rng, sizes: &[usize], styles: &[usize], trailers: u
 const CHUNKED_HEAD: &[u8] = b"HTTP/1.1 200 OK\r\nTransfer-Encoding: chunked\r\n\r\n";
 
 fn one_c07(cx: &mut Ctx, coding: &[u8], arrivals: &[usize], caps: &mut dyn FnMut() -> usize, stop: Option<bool>) {
-    if !to_recv_body(cx, "GET", CHUNKED_HEAD) { return; }
+    one_c07_head(cx, CHUNKED_HEAD, coding, arrivals, caps, stop)
+}
+
+fn one_c07_head(cx: &mut Ctx, head: &[u8], coding: &[u8], arrivals: &[usize], caps: &mut dyn FnMut() -> usize, stop: Option<bool>) {
+    if !to_recv_body(cx, "GET", head) { return; }
     cx.meta(&format!("body-stream {}", hx(coding)));
     let mut stream = coding.to_vec();
     stream.extend_from_slice(NEXT);
@@ -114,6 +118,22 @@ fn one_c07(cx: &mut Ctx, coding: &[u8], arrivals: &[usize], caps: &mut dyn FnMut
 
 pub fn c07(cx: &mut Ctx) {
     let mut r0 = Rng::for_case(cx.seed, 999_999);
+    // the same decoding behind heads that say other things about the connection (close, HTTP/1.0 request side is
+    // C08's): every single cut, so that the end of the coding arrives in two pieces wherever it can
+    for head in [&b"HTTP/1.1 200 OK\r\nConnection: close\r\nTransfer-Encoding: chunked\r\n\r\n"[..], b"HTTP/1.1 200 OK\r\nTransfer-Encoding: chunked\r\nconnection: keep-alive\r\nContent-Length: 7\r\n\r\n"] {
+        for sizes in [vec![], vec![2], vec![3, 1]] {
+            for trailers in 0..=2usize {
+                let coding = make_coding(&mut r0, &sizes, &[0], trailers, 0);
+                for cut in 1..coding.len() {
+                    for cap in [1000usize, 2] {
+                        cx.case("closehdr");
+                        let mut c = move || cap;
+                        one_c07_head(cx, head, &coding, &[cut], &mut c, None);
+                    }
+                }
+            }
+        }
+    }
     // the chunked body is that of a response refusing an Expect: 100-continue request (seen while awaiting, whole
     // or only its start, or after the caller gave up and sent the body)
     for route in 0..3 {
